@@ -165,6 +165,21 @@ def d1_layout(ctx, fits, rule='C07-D1', rule2='C07-D2', rule5='C07-D5'):
     hd = find_def(f, unparse(H))
     okh = len(hd) == 1 and unparse(hd[0].value) == 'hessian(chisqfunc)(fitp)'
     ctx.check(rule2, 'fits.py:least_squares#hessian', okh, 'H = hessian(chisq)(fitp)', 'H = %s' % [unparse(h.value) for h in hd], fits.loc(dv[0]))
+    if isinstance(B, ast.Name):
+        # the block goes through a local: every definition of it has to be the block of the Hessian of the compact chi-square; a
+        # definition by another formula (a closed form for a special case) is not the derivative of the function that was minimised
+        bdefs = find_def(f, B.id)
+        good = [d_ for d_ in bdefs if isinstance(d_.value, ast.Subscript) and isinstance(d_.value.slice, ast.Tuple)]
+        other = [d_ for d_ in bdefs if d_ not in good]
+        for d_ in other:
+            ctx.violated(rule, key + '#alternative[%s]' % unparse(d_.value)[:40], 'on one path the mixed derivative d(grad chi2)/d(data) is not taken from hessian(%s) but built as `%s` (guards %s): '
+                         'the sensitivities are then not those of the chi-square that defines the fit (e.g. its correlation matrix / priors)' % (
+                             cf.name, unparse(d_.value)[:60], [unparse(t) for t, pol in guards_of(fits, d_, stop=f) if pol]), fits.loc(d_))
+        if len(good) != 1:
+            if not other:
+                ctx.unrec(rule, key, 'mixed block %s has %d definitions' % (B.id, len(bdefs)))
+            return
+        B = good[0].value
     if not (isinstance(B, ast.Subscript) and isinstance(B.slice, ast.Tuple) and len(B.slice.elts) == 2 and all(isinstance(e, ast.Slice) for e in B.slice.elts)):
         ctx.unrec(rule, key, 'mixed block is not M[a:b, c:d]: %s' % unparse(B))
         return
@@ -502,10 +517,31 @@ def d12_no_reanalysis(ctx, fits):
     ctx.floor('error-analysis calls in fits.py (canary: Fit_result.gamma_method)', n, 1)
 
 
+def explicit_range_wins(ctx, rule, cm, qual, param):
+    """the stored prange is only a default: every assignment `<param> = self.prange` is reachable only when the caller gave no range"""
+    from ..srcmodel import established_false
+    f = cm.func(qual)
+    st = [s_ for s_ in statements(f) if isinstance(s_, ast.Assign) and unparse(s_.targets[0]) == param and 'self.prange' in unparse(s_.value) and not isinstance(s_.value, ast.BoolOp)]
+    boolop = [s_ for s_ in statements(f) if isinstance(s_, ast.Assign) and unparse(s_.targets[0]) == param and isinstance(s_.value, ast.BoolOp) and 'self.prange' in unparse(s_.value)]
+    for s_ in boolop:
+        first = unparse(s_.value.values[0])
+        ctx.check(rule, 'correlators.py:%s#explicit-range-wins' % qual, first == param and isinstance(s_.value.op, ast.Or), 'explicit range first, stored range as fallback',
+                  '`%s`: the stored prange overrides an explicitly passed range' % unparse(s_), cm.loc(s_))
+    for s_ in st:
+        pos = [unparse(t) for t, pol in guards_of(cm, s_, stop=f) if pol]
+        neg = [unparse(t) for t, pol in guards_of(cm, s_, stop=f) if not pol] + [unparse(t) for t in established_false(cm, f, s_)]
+        ok = any(x in ('%s is None' % param, 'not %s' % param) for x in pos) or any(x in ('%s is not None' % param, param) for x in neg)
+        ctx.check(rule, 'correlators.py:%s#explicit-range-wins' % qual, ok, 'the stored prange is used only when no range was passed',
+                  '`%s = self.prange` is reached under %s / not %s: a stored prange overrides the range the caller passed' % (param, pos, neg), cm.loc(s_))
+    return len(st) + len(boolop)
+
+
 def d7_corrfit(ctx):
     rule = 'C07-D7'
     cm = ctx.repo.mod('correlators')
     f = cm.func('Corr.fit')
+    n_ = explicit_range_wins(ctx, rule, cm, 'Corr.fit', 'fitrange')
+    ctx.floor('default range assignments in Corr.fit', n_, 1)
     xs, ys = find_def(f, 'xs'), find_def(f, 'ys')
     if len(xs) != 1 or len(ys) != 1:
         ctx.unrec(rule, 'correlators.py:Corr.fit#xs-ys', 'xs / ys definitions not found')
